@@ -53,7 +53,7 @@ impl Prop for C19Prop {
     }
     fn cases(&self, tier: Tier) -> u32 {
         match tier {
-            Tier::Quick => 5000,
+            Tier::Quick => 8000,
             Tier::Thorough => 60000,
         }
     }
